@@ -50,3 +50,26 @@ func TestFinding70_FalsyDocumentValuesAreWritten(t *testing.T) {
 		}
 	}
 }
+
+// rows 89, 90 — C20.R8 (the info string of a fenced code block is text), C11.R15 (Load without content filesystem)
+func TestFinding89and90_InfoStringAndLoadWithoutFS(t *testing.T) {
+	for src, want := range map[string]string{
+		"```a&amp;b\ncode\n```\n": `class="language-a&amp;b"`,
+		"```a\\*b\ncode\n```\n":   `class="language-a*b"`,
+	} {
+		var buf bytes.Buffer
+		if err := markdown.New(nil).RenderBytes(&buf, []byte(src)); err != nil || !strings.Contains(buf.String(), want) {
+			t.Errorf("%q: got %q err=%v, want %s in it", src, buf.String(), err, want)
+		}
+	}
+	func() {
+		defer func() {
+			if r := recover(); r != nil {
+				t.Errorf("Load on a renderer without content filesystem panicked: %v", r)
+			}
+		}()
+		if _, err := markdown.New(nil).Load("a.md"); err == nil {
+			t.Errorf("Load without content filesystem: nil error")
+		}
+	}()
+}
